@@ -741,6 +741,22 @@ impl Printer<'_> {
         }
     }
 
+    fn plain_str(parts: &[SPart]) -> bool {
+        parts.iter().all(|p| matches!(p, SPart::Lit(_)))
+    }
+
+    /// a call whose arguments are plain atoms (nothing in them can itself span lines)
+    fn multiline_args_ok(e: &E) -> bool {
+        match e {
+            E::Call(c, args) => {
+                !args.is_empty()
+                    && matches!(**c, E::Id(_) | E::Dot(..) | E::Index(..))
+                    && args.iter().all(|(a, packed)| !*packed && (matches!(a, E::Int(n) if *n >= 0) || matches!(a, E::Id(_) | E::Bool(_) | E::Null | E::Float(_)) || matches!(a, E::Str(parts) if Self::plain_str(parts))))
+            }
+            _ => false,
+        }
+    }
+
     fn rhs(&mut self, v: &E, ind: usize) {
         match v {
             E::If(arms, els) => {
@@ -795,6 +811,36 @@ impl Printer<'_> {
                     self.chain_ok -= chain as u32;
                     self.cur_ind = saved.0;
                     self.breaks = saved.1;
+                } else if let (E::Call(c, args), true) = (v, self.no_break == 0 && self.inline_only == 0 && Self::multiline_args_ok(v) && self.layout.pick(5) == 1) {
+                    // layout freedom: the arguments of a call that ends the statement may each sit on their own,
+                    // deeper indented line; the closing parenthesis follows the last one or sits on its own
+                    // line at the indentation of the line that holds the opening one
+                    let chain = Self::simple_chain_root(c);
+                    self.chain_ok += chain as u32;
+                    self.root(c, ind);
+                    self.chain_ok -= chain as u32;
+                    // (a statement is printed into its own buffer: its first line sits at cur_ind)
+                    let line_indent = match self.out.rfind('\n') {
+                        Some(i) => self.out[i + 1..].chars().take_while(|ch| *ch == ' ').count(),
+                        None => self.cur_ind,
+                    };
+                    let deeper = line_indent + 2 + 2 * self.layout.pick(2) as usize;
+                    self.out.push('(');
+                    self.inline_only += 1;
+                    for (i, (a, _)) in args.iter().enumerate() {
+                        self.out.push('\n');
+                        self.indent(deeper);
+                        self.arg(a, ind);
+                        if i + 1 < args.len() {
+                            self.out.push(',');
+                        }
+                    }
+                    self.inline_only -= 1;
+                    if self.layout.pick(2) == 1 {
+                        self.out.push('\n');
+                        self.indent(line_indent);
+                    }
+                    self.out.push(')');
                 } else {
                     let chain = matches!(v, E::Dot(..) | E::Call(..) | E::Index(..)) && Self::simple_chain_root(v);
                     self.chain_ok += chain as u32;
